@@ -174,6 +174,10 @@ type Endpoint struct {
 	Closed       bool
 	Accepted     bool
 
+	// RecoveredUnderWrongRatio: the library counted a FEC recovery while this
+	// endpoint's decoder used a ratio different from its peer's encoder.
+	RecoveredUnderWrongRatio bool
+
 	fecGrp     uint32 // current FEC group of this endpoint's encoder (wire view)
 	fecGrpInit bool
 	fecGrpMTU  int // largest MTU in force while its data packets were emitted
@@ -197,8 +201,12 @@ type World struct {
 	Ref    *RefCipher
 	FecD   int
 	FecP   int
-	UDP    bool
-	Batch  bool
+	// FecD2/FecP2: ratio of the "other" side (session B of a pair, or the
+	// listener); equal to FecD/FecP unless a mismatch scenario sets them.
+	FecD2, FecP2 int
+	Mismatch     bool
+	UDP          bool
+	Batch        bool
 
 	Sched  *kcp.TimedSched
 	Eps    []*Endpoint
@@ -219,6 +227,8 @@ type World struct {
 
 	// CheckOnce: C18 clean path - every data sn appears exactly once on the wire.
 	CheckOnce bool
+
+	lastRecovered uint64
 	// ReportParityStraddle: report (instead of counting) the recorded finding
 	// "parity of a group straddling an MTU reduction exceeds the new MTU".
 	ReportParityStraddle bool
@@ -226,8 +236,11 @@ type World struct {
 
 // WorldOpt selects global knobs of a world.
 type WorldOpt struct {
-	Cipher       string
-	FecD, FecP   int
+	Cipher     string
+	FecD, FecP int
+	// Mismatch: the other side uses FecD2/FecP2 (0/0 = no FEC there)
+	Mismatch     bool
+	FecD2, FecP2 int
 	UDP          bool
 	Batch        bool
 	SchedWorkers int
@@ -240,6 +253,10 @@ type WorldOpt struct {
 func NewWorld(s *Sim, opt WorldOpt) *World {
 	w := &World{S: s, Net: NewNet(s), Cipher: opt.Cipher, FecD: opt.FecD, FecP: opt.FecP, UDP: opt.UDP, Batch: opt.Batch,
 		byFlow: map[string]*Endpoint{}, nonces: map[string]struct{}{}, rawSeen: map[string]struct{}{}, connFEC: map[int][2]int{}}
+	w.FecD2, w.FecP2 = opt.FecD, opt.FecP
+	if opt.Mismatch {
+		w.Mismatch, w.FecD2, w.FecP2 = true, opt.FecD2, opt.FecP2
+	}
 	w.Links = NewLinks(s)
 	s.Fate = w.Links.Fate
 	s.OnEmit = w.onEmit
@@ -312,9 +329,9 @@ func (w *World) NewPair(ca, cb SessCfg, ownConn bool) (a, b *Endpoint) {
 	connA, connB := w.Net.NewConn(addrA), w.Net.NewConn(addrB)
 	connA.UseBatch, connB.UseBatch = w.Batch, w.Batch
 	w.connFEC[connA.id] = [2]int{w.FecD, w.FecP}
-	w.connFEC[connB.id] = [2]int{w.FecD, w.FecP}
+	w.connFEC[connB.id] = [2]int{w.FecD2, w.FecP2}
 	sa, _ := kcp.NewConn4(conv, addrB, w.block(), w.FecD, w.FecP, ownConn, connA)
-	sb, _ := kcp.NewConn4(conv, addrA, w.block(), w.FecD, w.FecP, ownConn, connB)
+	sb, _ := kcp.NewConn4(conv, addrA, w.block(), w.FecD2, w.FecP2, ownConn, connB)
 	a = w.addEndpoint("A", sa, connA, addrB.String(), ca)
 	b = w.addEndpoint("B", sb, connB, addrA.String(), cb)
 	a.Peer, b.Peer = b, a
@@ -328,8 +345,8 @@ func (w *World) Listen() {
 	addr := MakeAddr(100, w.UDP)
 	w.LConn = w.Net.NewConn(addr)
 	w.LConn.UseBatch = w.Batch
-	w.connFEC[w.LConn.id] = [2]int{w.FecD, w.FecP}
-	l, err := kcp.ServeConn(w.block(), w.FecD, w.FecP, w.LConn)
+	w.connFEC[w.LConn.id] = [2]int{w.FecD2, w.FecP2}
+	l, err := kcp.ServeConn(w.block(), w.FecD2, w.FecP2, w.LConn)
 	if err != nil {
 		panic("harness: " + err.Error())
 	}
